@@ -448,6 +448,7 @@ def run_codemodder(argv: list[str], *, inject: dict | None = None, env: dict | N
     return {
         "exit": exit_code,
         "exc": exc,
+        "directory": directory,
         "events": rec.events,
         "contents": rec.contents,
         "stdout": out.getvalue(),
